@@ -116,7 +116,12 @@ class PoolDomain(ExactCollections, Domain):
                 obj = Opaque("obj:%d" % n)
                 return [("ok", obj, state.set("#ncreated", n).set("#created", state.get("#created", ()) + (obj,)))]
             if t == "after_remove":
-                return [("ok", NONE, state.set("#closed", state.get("#closed", ()) + (args[0] if args else TOP,)))]
+                st = state.set("#closed", state.get("#closed", ()) + (args[0] if args else TOP,))
+                if state.get("#close_raises", 0):
+                    # the scenario's "closing the connection is interrupted / fails": the callback raises (after the
+                    # attempt: the object counts as closed), the pool method does not catch it
+                    return [("exc", Exc(ORD, "CloseInterrupted", node.lineno), st.set("#abandoned", 1))]
+                return [("ok", NONE, st)]
             if t == "builtin:isinstance" and len(args) == 2 and isinstance(args[0], Const) and args[1] == Opaque("builtin:int"):
                 return [("ok", Const(isinstance(args[0].v, int)), state)]
         r = self.coll_call(node, fval, args, kwargs, state)
@@ -221,8 +226,13 @@ def pool_histories(prog, rule, tier, prefix="ObjectPool"):
                 ops += [("clear", None)]
                 if idle_timeout:
                     ops += [("tick", None)]
+                # the same calls with the close callback raising (a failing or interrupted socket close): the books must
+                # come out of it with the capacity intact, whatever happens to the connection itself
+                ops += [("destroy!", x) for x in before.used] + ([("clear!", None)] if before.used or before.free else []) + ([("get!", None)] if idle_timeout and before.free else [])
                 for opname, x in ops:
-                    h2 = hist + ("%s(%s)" % (opname, x.tag[4:] if x is not None else ""),)
+                    interrupted = opname.endswith("!")
+                    opname = opname.rstrip("!")
+                    h2 = hist + ("%s(%s)%s" % (opname, x.tag[4:] if x is not None else "", " with the close callback raising" if interrupted else ""),)
                     where = "%s; after %s" % (cfg, ", ".join(hist) or "construction")
                     if opname == "tick":
                         c2 = dict(carried)
@@ -235,13 +245,43 @@ def pool_histories(prog, rule, tier, prefix="ObjectPool"):
                     if opname == "get" and len(before.created) >= max_created:
                         continue
                     f = meth[opname]
-                    outs = call(f, carried, **({"obj": x} if x is not None else {}))
+                    outs = call(f, dict(carried, **{"#close_raises": 1}) if interrupted else carried, **({"obj": x} if x is not None else {}))
                     rets, excs = outs.of("ret"), outs.of("exc")
                     if len(rets) + len(excs) != 1 or any(s.get("#imprecise", 0) for s, v, t in rets + excs):
                         rule.undecided("%s.%s:histories" % (prefix, opname), "%s: %s does not have one exactly known outcome (%d normal, %d raising)" % (where, h2[-1], len(rets), len(excs)))
                         return None
                     s2, v2, _ = (rets or excs)[0]
                     raised = excs[0][1].cls if excs else None
+                    if interrupted:
+                        # only the books are judged: what is listed, and (in the steps that follow) that capacity is
+                        # what the listing says.  The objects this call was closing are written off.
+                        c2 = carry_over(s2.drop("#close_raises") if s2.has("#close_raises") else s2, _keep)
+                        after = Books(c2, used_f, free_f)
+                        if not after.ok:
+                            rule.undecided("%s.%s:histories" % (prefix, opname), "%s: after %s the pool's collections are not exactly known" % (where, h2[-1]))
+                            return None
+                        if s2.get("#locked", 0):
+                            fail("%s:lock-left-held" % opname, "%s: %s ends with the pool lock held" % (where, h2[-1]), f)
+                            continue
+                        listed = after.used + after.free
+                        if len(set(listed)) != len(listed) or len(listed) > max_size:
+                            fail("%s:books-after-failed-close" % opname, "%s: after %s the pool lists %s (checked out) and %s (idle)" % (where, h2[-1], [o.tag[4:] for o in after.used], [o.tag[4:] for o in after.free]), f)
+                            continue
+                        if raised not in (None, "CloseInterrupted") and not (opname == "get" and raised == "RuntimeError"):
+                            fail("%s:raises" % opname, "%s: %s raises %s" % (where, h2[-1], raised), f)
+                            continue
+                        # write the abandoned objects off: closed as far as the books are concerned
+                        gone = [o for o in after.created if o not in listed and o not in after.closed]
+                        if gone:
+                            c2["#closed"] = tuple(c2.get("#closed", ())) + tuple(gone)
+                        held2 = held - set(o for o in held if o not in after.used)
+                        if opname == "get" and raised is None and isinstance(v2, Opaque):
+                            held2 = held2 | {v2}
+                        key = (tuple(sorted(c2.items(), key=str)), frozenset(held2))
+                        if key not in seen:
+                            seen.add(key)
+                            nxt.append((key[0], frozenset(held2), h2))
+                        continue
                     if s2.get("#locked", 0):
                         fail("%s:lock-left-held" % opname, "%s: %s ends with the pool lock held" % (where, h2[-1]), f)
                         continue
